@@ -35,6 +35,12 @@ def shards(tier):
         out.append(dict(op="transfer", dev=dev, sgeo="p3x2", dgeo="p3x2", same=True, k=2, steps=1, partition_by="auto", washes=[1], cands=[[0, 1], [1, 2]], wl_max=common.BIG * 2))
         out.append(dict(op="distribute", dev=dev, sgeo="t2x2", dgeo="p2x2", k=1, steps=1, dsels=[[0], [0, 3]]))
         out.append(dict(op="distribute", dev=dev, sgeo="t2x2", dgeo="t2x2", same=True, k=1, steps=1, dsels=[[2], [0]]))
+    # three transfers in sequence between a trough and a plate, through different virtual rows of one trough column:
+    # out via row B, in via row A, out via row B again (a per-well-id cache of compositions would go stale)
+    T = dict(op="transfer", k=1, washes=[1], partition_by="auto")
+    for dev in ("evo", "fluent"):
+        out.append(dict(op="seq", dev=dev, sgeo="t2x2", dgeo="p2x2", k=1, steps=1, wl_max=common.BIG * 2,
+                        ops=[dict(T, cands=[[1], [0]]), dict(T, reverse=True, cands=[[0], [0]]), dict(T, cands=[[1], [3]])]))
     for kind in ("plate2x2", "plate1x1", "plate1x2", "trough2x2", "trough3x1"):
         out.append(dict(op="init", kind=kind, k=1, steps=1))
     return out
@@ -52,7 +58,7 @@ def engine_opts(p, tier):
 
 
 def witnesses(tier):
-    return {"ok:add", "ok:transfer", "ok:distribute", "ok:aspirate", "init:ok", "init:rejected", "empty-destination"}
+    return {"ok:add", "ok:transfer", "ok:distribute", "ok:aspirate", "ok:seq", "init:ok", "init:rejected", "empty-destination"}
 
 
 def poke_composition(ctx, lab, name):
@@ -103,6 +109,9 @@ def scenario(ctx, p):
             lab.add(well, x, compositions=[inc])
         else:
             W.wl.dispense(lab, well, x, compositions=[inc])
+    elif p["op"] == "seq":
+        W.p = p
+        wlops.run_seq(ctx, W, p["ops"])
     else:
         W.p = p
         wlops.run(ctx, W)
@@ -229,7 +238,7 @@ def judge(ctx, p, outcome):
             f0, g = W.fpre[key].get(n, 0), W.incoming.get(n, 0)
             ctx.prove(ctx.implies(v + x > 0, ctx.eq(post[key][n] * (v + x), v * f0 + x * g)), f"C05: fraction of {n} after {op} differs from the volume-weighted mixture")
     # conservation of every component by transfers / distributions
-    if op in ("transfer", "distribute"):
+    if op in ("transfer", "distribute", "seq"):
         for n in sorted(names):
             before = after = 0
             for key in post:
